@@ -9,6 +9,7 @@
   Every statement is for all byte strings (any length, any byte values), all chunk sizes,
   all short-read patterns, all piece boundaries, any previous content of the file.
   The text layer (encodings, newline translation) is validated by the harness only.
+  Tree at b5a3d6c: `chunk_size=0` means the 1 MiB default.
 -/
 import FsModel.File
 import FsProofs.Lemmas.FileLemmas
@@ -21,27 +22,46 @@ set_option linter.unusedSimpArgs false
 
 /-! ## the chunked copy loop -/
 
-/-- `copy_file_data` writes exactly the source bytes: every length, every chunk size ≠ 0
-(negative = "read everything"), every pattern of short reads. -/
-theorem copy_file_data_exact (chunk : Int) (hc : chunk ≠ 0) (data : Bytes) (shortReads : List Nat) :
+/-- `chunk_size or 1024 * 1024` is never 0 -/
+theorem effChunk_ne_zero (chunk : Option Int) : effChunk chunk ≠ 0 := by
+  unfold effChunk
+  cases chunk with
+  | none => decide
+  | some c =>
+    simp only
+    split
+    · decide
+    · assumption
+
+/-- `copy_file_data` writes exactly the source bytes: every length, every byte value, every
+`chunk_size` (`None`, 0 = default 1 MiB, positive, negative = "read everything"), every pattern of
+short reads.  No hypothesis is left: since b5a3d6c a chunk size of 0 means the default. -/
+theorem copy_file_data_exact (chunk : Option Int) (data : Bytes) (shortReads : List Nat) :
     copyFileData chunk data shortReads = data := by
   unfold copyFileData
-  rw [copyLoop_exact chunk hc _ _ _ (by simp)]
+  rw [copyLoop_exact _ (effChunk_ne_zero chunk) _ _ _ (by simp)]
   simp
 
-/-- the hypothesis `chunk ≠ 0` is forced: `read(0)` returns `b""`, the loop stops at once and
-nothing is copied (`upload(path, f, chunk_size=0)` stores an empty file — reproduced on the code) -/
-theorem copy_file_data_chunk_zero_counterexample :
-    copyFileData 0 [1, 2, 3] [] = [] ∧ copyFileData 0 [1, 2, 3] [] ≠ [1, 2, 3] := by decide
+/-- regression (was `copy_file_data_chunk_zero_counterexample`: nothing was copied):
+`chunk_size=0` behaves exactly like `chunk_size=None` and copies everything -/
+theorem copy_file_data_chunk_zero_repaired (data : Bytes) (shortReads : List Nat) :
+    copyFileData (some 0) data shortReads = copyFileData none data shortReads ∧
+    copyFileData (some 0) [1, 2, 3] [] = [1, 2, 3] :=
+  ⟨rfl, copy_file_data_exact _ _ _⟩
 
-/-- the writes are the reader's chunks, in order; none is empty; none exceeds the chunk size -/
-theorem copy_chunks_faithful (chunk : Int) (hc : chunk ≠ 0) (data : Bytes) (shortReads : List Nat) :
-    (copyChunks chunk (data.length + 1) ⟨data, shortReads⟩).flatten = data ∧
-    ∀ c ∈ copyChunks chunk (data.length + 1) ⟨data, shortReads⟩,
-      c ≠ [] ∧ (0 < chunk → c.length ≤ chunk.toNat) :=
-  ⟨copyChunks_flatten chunk hc _ _ (by simp), copyChunks_bounded chunk _ _⟩
+/-- the loop itself still needs a non-zero size — `read(0)` returns `b""` and ends it at once;
+that is why the code (and `effChunk`) maps 0 to the default -/
+theorem copy_loop_zero_counterexample : copyLoop 0 4 ⟨[1, 2, 3], []⟩ [] = [] := by decide
 
-example : copyFileData 3 [1, 2, 3, 4, 5, 6, 7] [1, 9, 2] = [1, 2, 3, 4, 5, 6, 7] := by decide
+/-- the writes are the reader's chunks, in order; none is empty; none exceeds the (effective)
+chunk size -/
+theorem copy_chunks_faithful (chunk : Option Int) (data : Bytes) (shortReads : List Nat) :
+    (copyChunks (effChunk chunk) (data.length + 1) ⟨data, shortReads⟩).flatten = data ∧
+    ∀ c ∈ copyChunks (effChunk chunk) (data.length + 1) ⟨data, shortReads⟩,
+      c ≠ [] ∧ (0 < effChunk chunk → c.length ≤ (effChunk chunk).toNat) :=
+  ⟨copyChunks_flatten _ (effChunk_ne_zero chunk) _ _ (by simp), copyChunks_bounded _ _ _⟩
+
+example : copyFileData (some 3) [1, 2, 3, 4, 5, 6, 7] [1, 9, 2] = [1, 2, 3, 4, 5, 6, 7] := by decide
 example : copyChunks 3 8 ⟨[1, 2, 3, 4, 5, 6, 7], [1, 9, 2]⟩ = [[1], [2, 3, 4], [5, 6], [7]] := by decide
 
 /-! ## sessions over the io reference -/
@@ -134,7 +154,7 @@ theorem chop_flatten (cuts : List Nat) (d : Bytes) : (chop cuts d).flatten = d :
   | nil => simp [chop]
   | cons k ks ih => simp [chop, ih]
 
-theorem store_exact (w : WritePath) (hw : w.valid = true) (ex : Option Bytes) (data : Bytes) :
+theorem store_exact (w : WritePath) (ex : Option Bytes) (data : Bytes) :
     w.store ex data = some data := by
   cases w with
   | writebytes =>
@@ -154,9 +174,8 @@ theorem store_exact (w : WritePath) (hw : w.valid = true) (ex : Option Bytes) (d
     rw [(append_concat (data.take k) (data.drop k) 0 0).1]
     simp
   | upload chunk sr =>
-    simp only [WritePath.valid, bne_iff_ne, ne_eq] at hw
     simp only [WritePath.store]
-    rw [piecewise_writes_concat, copyChunks_flatten chunk hw _ _ (by simp)]
+    rw [piecewise_writes_concat, copyChunks_flatten _ (effChunk_ne_zero chunk) _ _ (by simp)]
 
 theorem fetch_exact (r : ReadPath) (hr : r.valid = true) (file : Bytes) :
     r.fetch file = some file := by
@@ -182,6 +201,19 @@ theorem fetch_exact (r : ReadPath) (hr : r.valid = true) (file : Bytes) :
       (by intro s ho hrest
           left
           simp [IoRef.step, IoRef.stepOpen, IoRef.isReadline0, ho, hrd, IoRef.readN, hrest, limit])
+      (file.length + 1) ⟨file, 0, false⟩ rfl (by simp)
+    simpa using this
+  | download chunk =>
+    have hn : (some (effChunk chunk) : Option Int) ≠ some 0 := by
+      intro h; injection h with h; exact effChunk_ne_zero chunk h
+    have := drainWith_exact (Mode.flags modeR) (.read (some (effChunk chunk))) (limit (some (effChunk chunk)))
+      (limit_prefix _) (fun l hl => limit_ne_nil _ l hn hl)
+      (by intro s ho _
+          simp [IoRef.step, IoRef.stepOpen, IoRef.isReadline0, ho, hrd, IoRef.readN, effChunk_ne_zero])
+      (by intro s ho hrest
+          left
+          simp [IoRef.step, IoRef.stepOpen, IoRef.isReadline0, ho, hrd, IoRef.readN, hrest, limit,
+            effChunk_ne_zero])
       (file.length + 1) ⟨file, 0, false⟩ rfl (by simp)
     simpa using this
   | readintoLoop k =>
@@ -222,21 +254,22 @@ theorem fetch_exact (r : ReadPath) (hr : r.valid = true) (file : Bytes) :
 
 /-- the matrix: bytes stored through any write path are returned bit-identical by any read
 path (writebytes / piecewise write / writelines / writebytes+appendbytes / upload-style chunked
-copy with short reads  ×  read() / readall() / read(n) loop / readinto loop / readline loop /
-iteration / readlines) -/
-theorem write_read_matrix (w : WritePath) (r : ReadPath) (hw : w.valid = true) (hr : r.valid = true)
+copy with any chunk size and short reads  ×  read() / readall() / read(n) loop / download with
+any chunk size / readinto loop / readline loop / iteration / readlines).  The only side condition
+left is on *user* loops `read(0)` / `readinto(bytearray(0))`, which never make progress. -/
+theorem write_read_matrix (w : WritePath) (r : ReadPath) (hr : r.valid = true)
     (existing : Option Bytes) (data : Bytes) :
     (w.store existing data).bind r.fetch = some data := by
-  rw [store_exact w hw, Option.bind_some, fetch_exact r hr]
+  rw [store_exact w, Option.bind_some, fetch_exact r hr]
 
-example : (WritePath.upload 3 [1, 2]).valid = true ∧ (ReadPath.readLoop 2).valid = true := by decide
-example : ((WritePath.upload 3 [1, 2]).store (some [9, 9]) [1, 10, 2, 3, 10]).bind ReadPath.nextLoop.fetch =
+example : (ReadPath.readLoop 2).valid = true ∧ (ReadPath.download (some 0)).valid = true := by decide
+example : ((WritePath.upload (some 3) [1, 2]).store (some [9, 9]) [1, 10, 2, 3, 10]).bind ReadPath.nextLoop.fetch =
     some [1, 10, 2, 3, 10] := by decide
 
-/-- a read loop with `n = 0` (e.g. `download(chunk_size=0)`) returns nothing: the validity
-conditions of the matrix are needed -/
-theorem matrix_zero_chunk_counterexample :
-    (ReadPath.readLoop 0).fetch [1, 2] = some [] ∧ (WritePath.upload 0 []).store none [1, 2] = some [] := by
+/-- a user loop `while f.read(0)` returns nothing: `valid` is needed for that row only
+(`upload`/`download` with `chunk_size=0` are fine now: `copy_file_data_chunk_zero_repaired`) -/
+theorem matrix_zero_loop_size_counterexample :
+    (ReadPath.readLoop 0).fetch [1, 2] = some [] ∧ (ReadPath.readLoop 0).valid = false := by
   decide
 
 /-- the size a filesystem reports (seek to the end / length of the store) equals the number of
